@@ -3,6 +3,9 @@
 //   case (0 (op ...))  ->  ((obs_1 ... obs_n))
 #include "sx.hpp"
 #include "Db/Db.hpp"
+#include "Db/DbGrid.hpp"
+#include "Basic/Limits.hpp"
+#include "Enum/ELoadBy.hpp"
 #include "Enum/ELoc.hpp"
 #include "geoslib_define.h"
 #include "geoslib_io.h"
@@ -33,6 +36,45 @@ static std::string pname(const String& n) {
   return plist(codes, [](int c) { return pint(c); });
 }
 
+// setColumnBy*: the library reads tab[lec] without checking its size: the vector is padded with TEST up to the
+// number of samples (the model reads TEST beyond the end of its list)
+static VectorDouble padded(const Sx& s, const Db* db) {
+  VectorDouble r = vals(s);
+  while ((int) r.size() < db->getSampleNumber()) r.push_back(TEST);
+  return r;
+}
+static String combine(long long c) {
+  static const char* k[] = {"set", "not", "or", "and", "xor"};
+  return (c >= 0 && c <= 4) ? String(k[c]) : String("bogus");
+}
+static const char* SREF[] = {"x", "z", "v", "f", "g", "lower", "upper", "p", "w", "code", "sel"};
+static VectorString locstrs(const Sx& s) {
+  VectorString r;
+  for (auto& x : s.l) {
+    long long t = x[0].i(), n = x[1].i();
+    if (t < 0 || t > 10) { r.push_back("none"); continue; }
+    r.push_back(String(SREF[t]) + (n >= 0 ? std::to_string(n) : String()));
+  }
+  return r;
+}
+static VectorDouble dbl(const Sx& s) { VectorDouble r; for (auto& x : s.l) r.push_back((double) x.i()); return r; }
+// creators: return the new Db (the old one is deleted by the caller)
+static Db* create(const Db* cur, const Sx& o) {
+  switch (o[0].i()) {
+    case 50: return Db::createFromSamples((int) o[1].i(), o[2].b() ? ELoadBy::COLUMN : ELoadBy::SAMPLE, vals(o[3]),
+                                          strs(o[4]), locstrs(o[5]), o[6].b());
+    case 51: { int nd = (int) o[2].i(); return Db::createFromBox((int) o[1].i(), VectorDouble(nd, 0.), VectorDouble(nd, 1.), 4324, true, false, 0., 0., 0., o[3].b()); }
+    case 52: { VectorDouble het; for (auto& x : o[8].l) het.push_back(x.b() ? 1. : 0.);
+               return Db::createFillRandom((int) o[1].i(), (int) o[2].i(), (int) o[3].i(), (int) o[4].i(), o[5].b() ? 1 : 0,
+                                           o[6].b() ? 1. : 0., o[7].b() ? 1. : 0., het, VectorDouble(), VectorDouble(), 5342, o[9].b()); }
+    case 53: return DbGrid::create(ints(o[1]), dbl(o[2]), dbl(o[3]), VectorDouble(), o[4].b() ? ELoadBy::COLUMN : ELoadBy::SAMPLE,
+                                   vals(o[5]), strs(o[6]), locstrs(o[7]), o[8].b(), o[9].b());
+    case 54: { const DbGrid* g = dynamic_cast<const DbGrid*>(cur); if (g == nullptr) return nullptr;   // not a grid: nothing happens
+               VectorVectorInt lim; for (auto& x : o[4].l) lim.push_back({(int) x[0].i(), (int) x[1].i()});
+               return DbGrid::createSubGrid(g, lim, o[5].b()); }
+  }
+  return nullptr;
+}
 static void apply(Db* db, const Sx& o) {
   switch (o[0].i()) {
     case 1: db->addColumnsByConstant((int) o[1].i(), val(o[2]), o[3].str(), loc(o[4].i()), (int) o[5].i(), (int) o[6].i()); break;
@@ -65,6 +107,18 @@ static void apply(Db* db, const Sx& o) {
     case 28: db->deleteColumnsByUIDRange((int) o[1].i(), (int) o[2].i()); break;
     case 29: db->setName(strs(o[1]), o[2].str()); break;
     case 30: db->setNameByLocator(loc(o[1].i()), o[2].str()); break;
+    case 31: db->deleteSamples(ints(o[1])); break;
+    case 32: db->setColumnByUID(padded(o[2], db), (int) o[1].i(), o[3].b()); break;
+    case 33: db->setColumnByColIdx(padded(o[2], db), (int) o[1].i(), o[3].b()); break;
+    case 34: db->setColumn(db->getUID(o[2].str()) >= 0 ? padded(o[1], db) : vals(o[1]), o[2].str(), loc(o[3].i()), (int) o[4].i(), o[5].b()); break;
+    case 35: db->setValueByColIdx((int) o[1].i(), (int) o[2].i(), val(o[3])); break;
+    case 36: db->setFromLocator(loc(o[1].i()), (int) o[2].i(), (int) o[3].i(), val(o[4])); break;
+    case 37: { VectorVectorDouble t; for (auto& x : o[1].l) t.push_back(vals(x));
+               db->addColumnsByVVD(t, o[2].str(), loc(o[3].i()), (int) o[4].i(), o[5].b()); break; }
+    case 38: db->addSelection(vals(o[1]), o[2].str(), combine(o[3].i())); break;
+    case 39: db->addSelectionByRanks(ints(o[1]), o[2].str(), combine(o[3].i())); break;
+    case 40: { Limits lim; if (o[2].b()) lim = Limits(VectorDouble(1, val(o[3])), VectorDouble(1, val(o[4])), VectorBool(1, true), VectorBool(1, false));
+               db->addSelectionByLimit(o[1].str(), lim, o[5].str(), combine(o[6].i())); break; }
     default: throw std::runtime_error("unknown op");
   }
 }
@@ -105,16 +159,53 @@ static std::string observe(const Db* db) {
   for (auto* cc : {&c0, &c1, &c2, &c3}) s += " " + plist(*cc, [](const VectorDouble& c) { return pcol(c); });
   s += " " + plist(n2c, [](int x) { return pint(x); });
   s += " " + plist(n2u, [](int x) { return pint(x); });
+  std::vector<VectorDouble> c4, c5;
+  for (int c = 0; c < ncol; c++) { c4.push_back(db->getColumnByColIdx(c, true, false)); c5.push_back(db->getColumnByColIdx(c, true, true)); }
+  for (auto* cc : {&c4, &c5}) s += " " + plist(*cc, [](const VectorDouble& c) { return pcol(c); });
   return s + ")";
 }
 
+// directed tests (no model): (2 refine delete_middle) post-condition of createCoarse/createRefine on the table side;
+// (3) designation by a name that is not a valid regular expression; (4) addColumns(useSel) with no active sample
+static std::string roles(const Db* db, bool skipRank) {
+  std::string s = "("; bool first = true;
+  for (int c = 0; c < db->getColumnNumber(); c++) {
+    ELoc t; int k; db->getLocatorByColIdx(c, &t, &k);
+    if (skipRank && c == 0) continue;
+    if (t == ELoc::X) continue;
+    if (!first) s += " "; first = false;
+    s += "(" + pname(db->getNameByColIdx(c)) + " " + pint(t.getValue()) + " " + pint(k) + ")";
+  }
+  return s + ")";
+}
+static std::string directed(const Sx& c) {
+  long long kind = c[0].i();
+  if (kind == 2) {
+    DbGrid* g = DbGrid::create({4, 4}, {1., 1.}, {0., 0.}, VectorDouble(), ELoadBy::COLUMN, VectorDouble(), VectorString(), VectorString(), true, true);
+    g->addColumnsByConstant(1, 5., "a", ELoc::Z); g->addColumnsByConstant(1, 6., "b", ELoc::F); g->addColumnsByConstant(1, 7., "c", ELoc::V);
+    if (c[2].b()) g->deleteColumn("a");
+    DbGrid* n = c[1].b() ? DbGrid::createRefine(g, {2, 2}, true, true) : DbGrid::createCoarse(g, {2, 2}, true, true);
+    std::string out = "(" + roles(g, true) + " " + (n ? roles(n, true) : std::string("()")) + ")";
+    delete n; delete g; return out;
+  }
+  Db* d = Db::create();
+  std::string out = "(1)";
+  if (kind == 3) { d->addColumnsByConstant(1, 0., "a", ELoc::UNKNOWN, 0, 2); out = "(" + pint(d->getColIdx("a[")) + ")"; }
+  if (kind == 4) { d->addColumnsByConstant(1, 0., "s", ELoc::SEL, 0, 2); d->addColumns({1.}, "b", ELoc::UNKNOWN, 0, true); out = "(" + pint(d->getColumnNumber()) + ")"; }
+  delete d; return out;
+}
 static std::string run(const Sx& c) {
-  if (c[0].i() != 0) return "(-997 1)";
+  if (c[0].i() >= 2) return directed(c);
   Db* db = Db::create();
   std::string out = "((";
   bool first = true;
   for (auto& o : c[1].l) {
-    apply(db, o);
+    if (o[0].i() >= 50) {
+      Db* n = create(db, o);
+      if (n == nullptr && o[0].i() != 54) throw std::runtime_error("creator returned null");
+      if (n != nullptr) { delete db; db = n; }
+    }
+    else apply(db, o);
     if (!first) out += " ";
     first = false;
     out += observe(db);
